@@ -244,33 +244,37 @@ WhereEmpty(sel) == AttrTerms(sel) = {} /\ AggKey(sel) = "-"
 InitRow(s, q) == /\ Day(q.from) <= Day(s.ts) /\ Day(s.ts) <= Day(q.to)
                  /\ q.from <= s.ts /\ s.ts < q.to
 
-\* WHERE ... and (term1 or term2 or ... [or key = aggattr]): rows that do not satisfy any
-\* attribute term are not read at all                                        [where]
-RowPass(sel, s, k, F) ==
-  IF "where" \in F /\ ~WhereEmpty(sel)
-  THEN (\E t \in AttrTerms(sel) : RowTerm(t, s, k)) \/ k = AggKey(sel)
-  ELSE TRUE
-
 \* one selector: AttrConditionPlanner + IndexGroupByPlanner + AggregatorPlanner
 \* result [err, P, ms, key]  (key = max(timestamp_ns) of the matched spans)
 MechSelector(sel, q, db, F) ==
   IF "emptywhere" \in F /\ sel.sh # "empty" /\ WhereEmpty(sel)
-  THEN [err |-> "emptywhere", P |-> {}, ms |-> [ti \in Traces(db) |-> {}], key |-> [ti \in Traces(db) |-> -1]]
+  THEN \* sql.Or() of an empty list renders `()`:  ... WHERE (<date and time bounds>) and ()
+       [err |-> "emptywhere", P |-> {}, ms |-> [ti \in Traces(db) |-> {}], key |-> [ti \in Traces(db) |-> -1]]
   ELSE
-  LET vis(s) == {k \in RowKeys(s) : RowPass(sel, s, k, F)}
-      \* GROUP BY trace_id, span_id: groupBitOr(bitShiftLeft(toUInt64(term_i), i) + ...) as a set of bit numbers
-      bits(s) == {BitIdx(sel, j) : j \in {x \in SelSlots(sel) : \E k \in vis(s) : RowTerm(sel.t[x], s, k)}}
-      \* HAVING tree over bitAnd(bsCond, 1 << idx) != 0
-      having(s) == CodeTree(sel.sh, [j \in 1..4 |-> j <= Arity(sel.sh) /\ BitIdx(sel, j) \in bits(s)], F)
-      ms == [ti \in Traces(db) |->
-               {si \in Spans(db, ti) : LET s == db[ti][si] IN InitRow(s, q) /\ vis(s) # {} /\ having(s)}]
-      \* agg_val: toFloat64(duration) | anyIf(toFloat64OrNull(val), key == attr)
-      aggval(s) == IF sel.agg.attr = "dur" THEN s.dur
-                   ELSE IF AggKey(sel) \in vis(s) /\ RowVal(s, AggKey(sel)) \in NumAtoms
-                        THEN NumOf(RowVal(s, AggKey(sel))) ELSE NULL
+  LET bi == [j \in 1..4 |-> IF j <= Arity(sel.sh) THEN BitIdx(sel, j) ELSE -1]
+      attrTerms == AttrTerms(sel)
+      aggKey == AggKey(sel)
+      \* WHERE ... and (term1 or term2 or ... [or key = aggattr]): rows that do not satisfy any
+      \* attribute term are not read at all                                    [where]
+      whereOn == "where" \in F /\ ~WhereEmpty(sel)
+      info == [ti \in Traces(db) |-> [si \in Spans(db, ti) |->
+                LET s == db[ti][si]
+                    vis == IF whereOn
+                           THEN {k \in RowKeys(s) : (\E t \in attrTerms : RowTerm(t, s, k)) \/ k = aggKey}
+                           ELSE RowKeys(s)
+                    \* GROUP BY trace_id, span_id: groupBitOr(bitShiftLeft(toUInt64(term_i), i) + ...) as a set of bit numbers
+                    bits == {bi[j] : j \in {x \in SelSlots(sel) : \E k \in vis : RowTerm(sel.t[x], s, k)}}
+                IN [ok |-> /\ InitRow(s, q)
+                           /\ vis # {}
+                           \* HAVING tree over bitAnd(bsCond, 1 << idx) != 0
+                           /\ CodeTree(sel.sh, [j \in 1..4 |-> bi[j] \in bits], F),
+                    \* agg_val: toFloat64(duration) | anyIf(toFloat64OrNull(val), key == attr)
+                    av |-> IF sel.agg.attr = "dur" THEN s.dur
+                           ELSE IF aggKey \in vis /\ RowVal(s, aggKey) \in NumAtoms THEN NumOf(RowVal(s, aggKey)) ELSE NULL]]]
+      ms == [ti \in Traces(db) |-> {si \in Spans(db, ti) : info[ti][si].ok}]
       P == {ti \in Traces(db) :
               /\ ms[ti] # {}
-              /\ AggPass(sel.agg, ms[ti], [si \in Spans(db, ti) |-> aggval(db[ti][si])])}
+              /\ AggPass(sel.agg, ms[ti], [si \in Spans(db, ti) |-> info[ti][si].av])}
   IN [err |-> NoErr, P |-> P, ms |-> ms, key |-> K1(db, ms)]
 
 \* attrless.go ({}): trace ids of the `limit` newest spans with from <= ts <= to (sic), then
@@ -369,11 +373,23 @@ Conforms(o, d, q, db) ==
 
 ConformsAll(O, d, q, db) == \A o \in O : Conforms(o, d, q, db)
 
+\* deviation rules that can matter for q at all (keeps Explain cheap)
+Applicable(q) ==
+  LET S == {q.sels[i] : i \in DOMAIN q.sels}
+      hasDur(sel) == \E j \in SelSlots(sel) : sel.t[j].k = "dur"
+  IN (IF q.kind # "search" THEN {"tagsv2"} ELSE {})
+     \cup (IF Len(q.sels) = 3 THEN {"chain3"} ELSE {})
+     \cup (IF \E i \in DOMAIN q.ops : q.ops[i] = "&&" THEN {"intersect"} ELSE {})
+     \cup (IF \E sel \in S : sel.sh \in {"ao", "flat4", "flat4b"} THEN {"prec"} ELSE {})
+     \cup (IF \E sel \in S : sel.sh # "empty" /\ WhereEmpty(sel) THEN {"emptywhere"} ELSE {})
+     \cup (IF \E sel \in S : hasDur(sel) THEN {"where"} ELSE {})
+     \cup (IF \E sel \in S : sel.sh = "empty" THEN {"attrless_le"} ELSE {})
+
 \* the smallest set of deviation rules that has to be switched off to make the plan conform
-Explain(q, db) ==
-  LET d == Eval(q, db)
-      good == {S \in SUBSET AllFlags : ConformsAll(PlanEval(q, db, AllFlags \ S), d, q, db)}
+ExplainWith(q, db, d) ==
+  LET good == {S \in SUBSET Applicable(q) : ConformsAll(PlanEval(q, db, AllFlags \ S), d, q, db)}
   IN IF good = {} THEN {"UNEXPLAINED"}
      ELSE CHOOSE S \in good : \A S2 \in good : Cardinality(S) <= Cardinality(S2)
+Explain(q, db) == ExplainWith(q, db, Eval(q, db))
 
 =============================================================================
